@@ -10,9 +10,24 @@ DONE = {
  "C01": ("differential runtime oracle: independent ETF reader + denotation over boundary corpus and seeded random term trees",
          "Runs the real encoder/decoder on ~7e4 (quick) / ~3e6 (thorough) term trees covering every variant and every encoding boundary of the quantifier; every encoding is read by an independent implementation of the format and compared by value, re-encoded and compared byte-wise. Held-on-observed, not proof.",
          "Trusted base: /verif/harness/src/refmodel (Val, ref_decode, val_of/term_of), transcribed from erl_ext_dist. Generator only builds well-formed terms.", "6/C01"),
+ "C02": ("process-level runtime observer: decoders run in child processes on a 2 MiB-stack thread under a counting allocator; exit status, signal and requested allocation sizes are the oracle",
+         "~4e4 (quick) / ~1e6 (thorough) hostile inputs (tag x count grid, nesting bombs to depth 4e6, truncations, mutations, zip bombs, hostile headers) through all 8 decoding entry points, in a debug and a release build; a crash is attributed to the case in flight and the child restarted.",
+         "Memory limit = 1 MiB + 256 x (input + really inflated bytes); stack = 2 MiB. Allocation above 6 GiB is reported by the allocator instead of being served.", "6/C02"),
  "C03": ("differential runtime oracle: independent ETF writer enumerating all admissible encodings, decoded by the library",
          "For each generated value the independent writer walks the admissible encodings (exhaustively for values with <=200 combinations, randomly beyond) and the library's decode must denote exactly that value; trailing bytes must be reported. Cause-class signatures separate encoding alternatives and merged map keys.",
          "Trusted base: refmodel encode/decode pair (continuously self-checked against each other); LOCAL_EXT read as hash8+term.", "6/C03"),
+ "C04": ("online trace checker over the handshake API (shadow of the handshake epoch, own MD5) + scripted deviating peer over loopback with a fake EPMD",
+         "All API-call sequences up to length 4 (quick) / 5 (thorough) over 23 symbolic actions plus random longer ones are checked online: Connected only after a reply emitted in this epoch and a later matching digest; reply digest, flag intersection and byte layouts checked against independent models. 21 peer behaviours x flag sets against Connection::connect on real sockets.",
+         "Own MD5 (RFC 1321 vectors checked at start); cookie digested as UTF-8; timing bound measured from the peer's silence, overruns are inconclusive, only the 15 s watchdog is a violation.", "6/C04"),
+ "C05": ("runtime monitor with a scripted AsyncRead transport: all chunkings of short streams, random cuts of long ones, allocation measured; second read loop over real loopback sockets",
+         "All 2^(n-1) chunkings of streams up to 11 (quick) / 15 (thorough) bytes with Pending between chunks in both framing modes, boundary lengths, over-long lengths (no large allocation), EOF at every offset; the node's duplicate read loop on a real socket written in scripted slices.",
+         "Independent framing model: big-endian 2/4-byte length prefix.", "6/C05"),
+ "C08": ("differential runtime oracle against a transcription of the protocol's control-message table; lossless parse/serialise monitor over a tag x arity grid",
+         "Every tag 0..255 x arity 1..10 x random fields parsed and serialised back (value equality through the denotation), both serialisers compared, wire trip, unlink ids over the 64-bit range in both integer representations, non-messages rejected, and each named operation compared with the protocol table.",
+         "Protocol table transcribed from erl_dist_protocol (DESIGN.md appendix A).", "6/C08"),
+ "C09": ("history checker against a sequential model of the assembler; exhaustive arrival permutations for small fragment counts",
+         "All n! arrival orders for n <= 6 (quick) / 7 (thorough) x cut patterns, random orders up to n = 64, duplicates / id 0 / out-of-range ids, 2..4 interleaved sequences with arbitrary ids, expiry; every return value and pending_count compared with the model.",
+         "Fragments are derived from an original message the protocol's way (first fragment numbered n, counting down).", "6/C09"),
  "C10": ("runtime byte-identity monitor over decode->conversion chain->encode, plus equality/hash/order oracle across identifier forms",
          "3e4 (quick) / 2e6 (thorough) identifiers in plain and node-local form, in 9 term contexts, through random clone/borrow/move chains; re-encoded bytes must equal the received bytes; both forms must be ==/hash-equal/cmp-Equal and differ from identifiers with one field changed.",
          "Trusted: hand-assembled context bytes use only encodings the library emits canonically; LOCAL_EXT layout as documented by the library.", "6/C10"),
@@ -25,6 +40,18 @@ DONE = {
  "C13": ("differential runtime monitor: zero-copy decoder vs owned decoder on valid modern encodings, truncations, mutations and random bytes",
          "~2e5 (quick) / ~1e7 (thorough) inputs; structural comparison does not go through the library's ==.",
          "Modern tag set as listed in the evidence assumptions; inputs that make a decoder panic/abort are left to C02.", "6/C13"),
+ "C14": ("differential runtime oracle: independent distribution-header reader for the library's writer, and an atom-cache sender model producing message histories for the library's reader",
+         "Writer: 0..300 distinct atoms, even/odd counts, all length classes, read by an independent header reader and by the library. Reader: 300 (quick) / 6e4 (thorough) histories of up to 50 messages with new entries, re-use, overwrites, all segments, header position != slot, decoded with one persistent cache.",
+         "Header layout per erl_dist_protocol; the reference writer/reader pair is self-checked at start.", "6/C14"),
+ "C15": ("runtime round-trip monitor over a family of Rust types on both paths (term, bytes), classifying equal / altered / error",
+         "All integer widths with boundary values, floats, char, strings, options, unit, tuples, sequences, maps with string and integer keys, plain and ElixirStruct structs, all four enum variant shapes, nestings; ~1.6e4 (quick) / ~1e6 (thorough) values.",
+         "Excluded shapes as in the property (nested options, Option<()>, NaN, ambiguous names).", "6/C15"),
+ "C16": ("runtime uniqueness oracle under a turn-based deterministic scheduler driven by sync-point hooks (interleavings enumerated), free-running stress with injected delays, sequential wrap runs",
+         "Interleavings of 2x1, 2x2, 3x1 (+3x2, 4x1 thorough) allocations enumerated depth-first over the hook points from counter positions at and before the wrap; 2..16-thread stress with seeded delays; 2..5 sequential wraps; 16-thread make_reference. Evidence reports the distinct step orders actually realised.",
+         "Needs the verif-hooks sync points and lock probe in PidAllocator::allocate; uniqueness only within 2^32 serial increments.", "6/C16"),
+ "C20": ("runtime round-trip / no-fabrication monitor for the Elixir wrappers, i128 reference model for ranges (debug and release builds), model-based check of proplist/map helpers and builders",
+         "Every wrapper through term and wire with extreme field values, mutated terms must be rejected or accepted without fabricating a field; range len/contains/iteration/size_hint against an i128 reference over a bounds x steps grid in both build profiles; proplist<->map conversions on well-formed proplists.",
+         "Judgement calls listed in DESIGN.md 7a (Elixir. prefix normalisation, nil as absent optional).", "6/C20"),
 }
 
 checks = []
